@@ -25,7 +25,7 @@ META = dict(
     "small values, boundary-sized fields followed by another field, all fields set; encode must equal the reference bytes, "
     "decode(encode(m)) == m, and decoding the reference (conformant accessory) encoding must return exactly the encoded "
     "field values.  Received structures: packed u16 link lists with 0..6 ids and every byte value in each id byte, CoAP "
-    "databases of 1..3 accessories x services x characteristics in 9 variants, struct-valued characteristic access Each message is decoded twice with the first result scrambled in between (decoding is a function of the bytes); struct-valued characteristics are read over histories of updates stored through set_value and process_changes. Also: signatures decoded from a bytearray / a slice of one. Also: families of message types (base, derived, sibling) in every order of first use x first use by encoding or decoding, on classes made per run; a list field spelled typing.Sequence[...]. Also a message edited in place (at every depth) into the next message of the enumeration and encoded again.",
+    "databases of 1..3 accessories x services x characteristics in 9 variants, struct-valued characteristic access Each message is decoded twice with the first result scrambled in between (decoding is a function of the bytes); struct-valued characteristics are read over histories of updates stored through set_value and process_changes. Also: signatures decoded from a bytearray / a slice of one. Also: families of message types (base, derived, sibling) in every order of first use x first use by encoding or decoding, on classes made per run; a list field spelled typing.Sequence[...]. Also a message edited in place (at every depth) into the next message of the enumeration and encoded again. Struct-valued characteristics also with line-wrapped / CRLF-wrapped / newline-terminated base64 text.",
     note="the reference codec is trusted (hand-assembled examples and a captured accessory database in selftest); fields of "
     "a type the codec does not support (float) stay unset, zero-length values/empty lists of messages and the non-conformant "
     "id 0 are outside the quantifier; field values outside the boundary alphabet are not covered",
